@@ -330,7 +330,9 @@ Proof.
   destruct (match find_ext ext_sigalgs (h_exts h) with Some b => dec_u16_list16 b | None => Some [] end) as [sigalgs|] eqn:E5; [|discriminate].
   cbn [bind] in E.
   destruct (match find_ext ext_alpn (h_exts h) with Some b => dec_alpn b | None => Some [] end) as [alpn|] eqn:E6; [|discriminate].
-  cbn [bind] in E. inversion E; subst l; clear E. cbn.
+  cbn [bind] in E. inversion E; subst l; clear E.
+  cbn [cl_version cl_random cl_sid cl_suites cl_comps cl_ocsp cl_ticket cl_reneg cl_scts cl_sni cl_curves
+       cl_points cl_versions cl_alpn cl_sigalgs cl_session_ticket].
   repeat (split; [reflexivity|]).
   split; [intros name F; rewrite F in E1; cbv iota beta in E1; rewrite dec_sni_enc in E1; now inversion E1|].
   split; [intros cs F; rewrite F in E2; cbv iota beta in E2; rewrite dec_u16_list16_enc in E2; now inversion E2|].
@@ -352,7 +354,7 @@ Proof.
   change (771 <=? 771) with true.
   pose proof (dec_skx_ecdhe_enc k P G) as D. unfold has_scheme in D. rewrite S in D. rewrite D. cbn [bind].
   destruct (point_of (skx_curve k) (skx_public k)); [|discriminate]. cbn [bind]. rewrite S.
-  destruct (logged_sig_and_hash_ecdhe s) as [p|]; [|discriminate]. cbn [bind].
+  destruct (logged_sig_and_hash_ecdhe s) as [pr|]; [|discriminate]. cbn [bind].
   intros E. inversion E. cbn. auto.
 Qed.
 
@@ -495,15 +497,10 @@ Proof.
   unfold ckx_log_of. cbn [kl_curve].
   assert (ka =? 0 = false) as -> by (destruct KAE; subst; reflexivity). rewrite KB.
   rewrite dec_ckx8_enc. cbn [bind]. rewrite CPT. cbn [bind].
-  assert (bytes_eqb_false_or : True) by trivial.
-  destruct nst as [[lt t]|].
-  - assert (find_msg 4 ((2, enc_server_hello sh) :: (11, enc_certificate certs) :: (12, enc_skx_ecdhe k) ::
-                        [(4, enc_new_session_ticket lt t)] ++ [(14, [])]) = Some (enc_new_session_ticket lt t)) as -> by reflexivity.
-    rewrite dec_new_session_ticket_enc by (eapply NST; reflexivity). cbn [bind].
+  destruct nst as [[lt t]|]; cbn [app]; unfold find_msg; cbn [find fst snd option_map N.eqb Pos.eqb].
+  - rewrite dec_new_session_ticket_enc by (eapply NST; reflexivity). cbn [bind].
     rewrite andb_false_r. reflexivity.
-  - assert (find_msg 4 ((2, enc_server_hello sh) :: (11, enc_certificate certs) :: (12, enc_skx_ecdhe k) ::
-                        [] ++ [(14, [])]) = None) as -> by reflexivity.
-    cbn [bind]. rewrite andb_false_r. reflexivity.
+  - cbn [bind]. rewrite andb_false_r. reflexivity.
 Qed.
 
 (* and the record layer / message framing in front of it: each side's clear handshake bytes
